@@ -12,9 +12,14 @@ In the storage arm (``case["storage"]``) a directory entry's hash spec may also 
 loadable: the listing object is written into the attached store, the keys below it are listed in the
 spec in their loaded form but left to the loader) or ``["U", n]`` (unloaded, object absent).
 
+With ``case["sqlite"] = {"old": history|None, "new": history|None}`` a side is built as
+``DataIndex.open(<sqlite file>)`` and driven through the edit history (``["set", key, meta, hash, isdir]``,
+``["del", key]``, ``["pop", key]``, ``["commit"]``) whose final content is the side's spec.
+
 The oracle is a flat dictionary diff (no descent, no listing) following DESIGN.md 4/C08 (a)-(f).
 """
 
+import contextlib
 import hashlib
 import json
 import os
@@ -39,7 +44,12 @@ RULE = (
     "ObjectStorage (HashFileDB on scratch) to both indexes and turns 1-3 non-root directories into "
     "unloaded .dir entries: loadable (listing object written as reference bytes, files below it come "
     "from the loader) or un-enumerable (object absent), with siblings around them, with_unknown mostly "
-    "on. Oracle: flat key-by-key reference "
+    "on. An SQLite arm builds one or both sides as DataIndex.open(<file>) and reaches the spec's content "
+    "through a drawn edit history in one session (sets, overwrites, explicit directory entries written "
+    "and deleted/popped while their children remain, leaves written and deleted, delete + re-add, "
+    "optional commits); the reference is computed from the final content, all oracles run through the "
+    "live handle(s), and the diff of the committed, closed and re-opened file(s) must equal the live one. "
+    "Oracle: flat key-by-key reference "
     "diff over the two key->entry dictionaries (under shallow, keys outside hashed sub-trees stay exact; "
     "a key strictly below a hashed entry may be seen or not seen on that side - any of those outcomes "
     "is accepted, nothing else; under with_unknown a key strictly below an un-enumerable directory may "
@@ -66,6 +76,8 @@ ASSUMPTIONS = [
     "shallow: the diff does not list below an entry that carries a hash; what happens to keys inside such "
     "a sub-tree when the other side leads the descent there is unspecified, so only consistency with some "
     "seen/not-seen combination is required for them",
+    "SQLite arm: entries are restricted to what Meta.to_dict()/from_dict() round-trips (no mtime/inode; no "
+    "Meta() on an entry without a hash, which is stored as {} and read back as None)",
     "hash_only and meta_only are not combined; with_renames is not combined with meta_only (assert in diff())",
 ]
 
@@ -319,8 +331,69 @@ def _flatten(root, storage=False):
     return out
 
 
+def _sq_spec(spec):
+    """Entries in a form that survives the SQLite serialisation unchanged: Meta.to_dict() has no
+    mtime/inode, and Meta() is written as {} and read back as None (visible only without a hash)."""
+    out = []
+    for key, meta, h, isdir in spec:
+        if meta is not None:
+            meta = {k: v for k, v in meta.items() if k not in ("mtime", "inode")}
+            if not meta and not (h == "D" or (h is not None and h[1])):
+                meta = None
+        out.append([key, meta, h, isdir])
+    return out
+
+
+def _history(draw, spec):
+    """An edit history (list of ["set", key, meta, hash, isdir] | ["del", key] | ["pop", key] |
+    ["commit"]) whose final content is exactly `spec`: overwrites, explicit directory entries that are
+    written and deleted again while their children remain, leaves written and deleted, re-adds."""
+    keys = {tuple(e[0]) for e in spec}
+    files = {tuple(e[0]) for e in spec if not e[3]}
+    order = [list(e) for e in spec]
+    if draw(_bool):
+        order.reverse()
+    ops = []
+    for e in order:
+        if draw(_isdir_sub):  # overwrite: an earlier version of the entry
+            alt = [e[0], {"isdir": True, "nfiles": 9}, None, True] if e[3] else [e[0], {"size": 9}, ["md5", _V[5]], False]
+            ops.append(["set", *alt])
+        ops.append(["set", *e])
+    # implicit directories of the final content (root included): explicit entry written, then deleted
+    impl = sorted({k[:i] for k in keys for i in range(len(k))} - keys)
+    extras = []
+    for k in impl[:4]:
+        if draw(_isdir_root):
+            extras.append([list(k), {"isdir": True}, "D" if draw(_bool) else None, True])
+    # leaves that do not survive
+    dirs = sorted({k[:i] for k in keys for i in range(len(k))} | {k for k in keys if k not in files} | {()})
+    for _ in range(draw(_nmarks)):
+        d = _pick(draw, dirs)
+        k = (*d, "zz")
+        if k not in keys and [list(k)] not in [[x[0]] for x in extras]:
+            extras.append([list(k), {"size": 1}, ["md5", _V[4]], False])
+    for x in extras:
+        ops.insert(draw(_idx) % (len(ops) + 1), ["set", *x])
+    if draw(_bool):
+        ops.append(["commit"])
+    tail = [["pop" if draw(_bool) else "del", x[0]] for x in extras]
+    for _ in range(draw(_nmarks)):   # delete a surviving entry and write it again
+        if spec:
+            e = _pick(draw, spec)
+            tail.insert(draw(_idx) % (len(tail) + 1), ["readd", *e])
+    for t in tail:
+        if t[0] == "readd":
+            ops.append(["del", t[1]])
+            ops.append(["set", *t[1:]])
+        else:
+            ops.append(t)
+    if draw(_bool):
+        ops.append(["commit"])
+    return ops
+
+
 @st.composite
-def cases(draw, mode=None, renames=None, storage=False):
+def cases(draw, mode=None, renames=None, storage=False, sqlite=False):
     # the rename arm draws hashes from three values and moves files more often, so that several
     # deleted and added keys carry the same hash
     hs = _hashes_ren if renames else _hashes
@@ -362,6 +435,18 @@ def cases(draw, mode=None, renames=None, storage=False):
         "with_unknown": draw(_i6) == 5,
     }
     case = {"old": a, "new": b, "opts": opts, "ops": ops}
+    if sqlite:
+        # either side may be an SQLite-backed index (DataIndex.open) that reaches its content through
+        # an edit history in one session; at least one side is
+        which = _pick(draw, ["both", "new", "old", "both"])
+        case["sqlite"] = {}
+        for side in ("old", "new"):
+            if case[side] is not None:
+                case[side] = _sq_spec(case[side])
+            if case[side] is not None and which in (side, "both"):
+                case["sqlite"][side] = _history(draw, case[side])
+            else:
+                case["sqlite"][side] = None
     if storage:
         opts["with_unknown"] = not draw(_i4) == 3
         opts["shallow"] = draw(_i6) == 5
@@ -595,6 +680,63 @@ def build_index(spec, odb=None):
     return idx
 
 
+def _entry(spec, key, meta, h):
+    from dvc_data.hashfile.hash_info import HashInfo
+    from dvc_data.hashfile.meta import Meta
+    from dvc_data.index import DataIndexEntry
+
+    h = spec_hash(spec, key, h)
+    return DataIndexEntry(
+        key=key,
+        meta=None if meta is None else Meta(**meta),
+        hash_info=None if h is None else HashInfo(name=h[0], value=h[1]),
+    )
+
+
+def check_history(spec, history):
+    """The history's final content must be the spec (the reference is computed from the spec)."""
+    model = {}
+    for op in history:
+        if op[0] == "set":
+            model[tuple(op[1])] = [list(op[1]), op[2], op[3], bool(op[4])]
+        elif op[0] in ("del", "pop"):
+            if tuple(op[1]) not in model:
+                raise HarnessError(f"history deletes the absent key {op[1]}")
+            del model[tuple(op[1])]
+        elif op[0] != "commit":
+            raise HarnessError(f"unknown history op {op}")
+    final = sorted(model.values(), key=lambda e: e[0])
+    want = sorted(([list(e[0]), e[1], e[2], bool(e[3])] for e in spec), key=lambda e: e[0])
+    if final != want:
+        raise HarnessError(f"history does not end in the spec: {final} != {want}")
+    for e in spec:
+        m = e[1] or {}
+        if "mtime" in m or "inode" in m or (e[1] == {} and not _truthy(spec_hash(spec, tuple(e[0]), e[2]))):
+            raise HarnessError(f"entry {e} does not survive SQLite serialisation unchanged")
+
+
+def build_sqlite(spec, history, path):
+    """DataIndex.open(path) driven through the edit history; the handle stays open (live)."""
+    from dvc_data.index import DataIndex
+
+    idx = DataIndex.open(path)
+    try:
+        for op in history:
+            if op[0] == "set":
+                key = tuple(op[1])
+                idx[key] = _entry(spec, key, op[2], op[3])
+            elif op[0] == "del":
+                del idx[tuple(op[1])]
+            elif op[0] == "pop":
+                idx.pop(tuple(op[1]))
+            else:
+                idx.commit()
+    except BaseException:
+        idx.close()
+        raise
+    return idx
+
+
 def _meta_cmp_key(meta):
     # the comparison key index checkout passes (dvc_data.index.checkout._diff)
     if meta is None:
@@ -766,6 +908,15 @@ def compare_plain(plain, bad, acc, ov, nv, opts, tag=""):
 
 
 def run_case(case, ctx):
+    if case.get("sqlite"):
+        handles = []
+        with ctx.tmpdir() as d:
+            try:
+                return _run(case, None, d, handles)
+            finally:
+                for h in handles:
+                    with contextlib.suppress(Exception):
+                        h.close()
     if not case.get("storage"):
         return _run(case, None)
     from dvc_objects.fs.local import LocalFileSystem
@@ -776,7 +927,7 @@ def run_case(case, ctx):
         return _run(case, HashFileDB(LocalFileSystem(), os.path.join(d, "odb")))
 
 
-def _run(case, odb):  # noqa: C901, PLR0912, PLR0915
+def _run(case, odb, sqdir=None, handles=None):  # noqa: C901, PLR0912, PLR0915
     opts = case["opts"]
     mode, cmpkey = opts["mode"], opts["cmpkey"]
     if mode == "meta" and opts["with_renames"]:
@@ -791,7 +942,16 @@ def _run(case, odb):  # noqa: C901, PLR0912, PLR0915
     pv_o, pv_n = view(fo, opts["shallow"]), view(fn, opts["shallow"])
     acc = acceptance(fo, fn, opts)
 
-    old, new = build_index(case["old"], odb), build_index(case["new"], odb)
+    sq = case.get("sqlite") or {}
+    built = {}
+    for side in ("old", "new"):
+        if sq.get(side) is not None:
+            check_history(case[side], sq[side])
+            built[side] = build_sqlite(case[side], sq[side], os.path.join(sqdir, side + ".db"))
+            handles.append(built[side])
+        else:
+            built[side] = build_index(case[side], odb)
+    old, new = built["old"], built["new"]
     viols = []
     counters = {}
 
@@ -832,8 +992,10 @@ def _run(case, odb):  # noqa: C901, PLR0912, PLR0915
     # -- (e) rename detection ------------------------------------------------------------------
     dup_hash = False
     nren = 0
+    lived = (plain, ren, bad)
     if opts["with_renames"]:
         rn_plain, rn, rn_bad = flat(real_diff(old, new, opts))
+        lived = (rn_plain, rn, rn_bad)
         nren = len(rn)
         for b in rn_bad:
             viols.append(Viol("malformed-change:renames", b))
@@ -882,6 +1044,28 @@ def _run(case, odb):  # noqa: C901, PLR0912, PLR0915
             hs = [ov[k]["hash"] for k, _ in want_pairs]
             dup_hash = len(set(hs)) < len(hs)
 
+    # -- SQLite: the live handle and the committed, re-opened file give the same diff ---------
+    if sq:
+        from dvc_data.index import DataIndex
+
+        re = {}
+        for side in ("old", "new"):
+            if sq.get(side) is not None:
+                built[side].commit()
+                built[side].close()
+                re[side] = DataIndex.open(os.path.join(sqdir, side + ".db"))
+                handles.append(re[side])
+            else:
+                re[side] = built[side]
+        r2 = flat(real_diff(re["old"], re["new"], opts))
+        want = lived  # what the live handles gave for the same options
+        if r2 != want:
+            a_only = [x for x in want[0] if x not in r2[0]][:3] or [x for x in want[1] if x not in r2[1]][:3]
+            b_only = [x for x in r2[0] if x not in want[0]][:3] or [x for x in r2[1] if x not in want[1]][:3]
+            viols.append(Viol(f"live-vs-reopened:{mode}",
+                              f"diff through the live SQLite handle(s) differs from the diff of the committed, "
+                              f"re-opened file(s): live-only {a_only}, reopened-only {b_only}"))
+
     # -- bookkeeping ---------------------------------------------------------------------------
     common = set(ov) & set(nv)
     differs = any(
@@ -891,6 +1075,24 @@ def _run(case, odb):  # noqa: C901, PLR0912, PLR0915
     nontrivial = bool(ov and nv and nested and differs)
 
     classes = [f"mode={mode}"]
+    if sq:
+        classes.append("sqlite")
+        for side in ("old", "new"):
+            h = sq.get(side)
+            if h is None:
+                continue
+            classes.append(f"sqlite:{side}")
+            spec = case[side]
+            keys = {tuple(e[0]) for e in spec}
+            deleted = [tuple(op[1]) for op in h if op[0] in ("del", "pop")]
+            if any(k not in keys and any(len(x) > len(k) and x[:len(k)] == k for x in keys) for k in deleted):
+                classes.append("sqlite:deleted-dir-entry-children-remain")
+            if any(k not in keys and not any(len(x) > len(k) and x[:len(k)] == k for x in keys) for k in deleted):
+                classes.append("sqlite:deleted-leaf")
+            if any(k in keys for k in deleted):
+                classes.append("sqlite:re-added")
+            if h and h[-1] != ["commit"]:
+                classes.append("sqlite:uncommitted-tail")
     if odb is not None:
         classes.append("storage")
         lz = {(k, e["lz"]) for f in (fo, fn) if f for k, e in f.items() if e.get("lz")}
@@ -970,6 +1172,7 @@ def _implicit_kind_change(f, g):
 ARMS = [
     ("full", None, False),
     (None, None, True),   # indexes with a cache storage and unloaded .dir entries (with_unknown)
+    (None, None, "sqlite"),   # SQLite-backed sides reaching their content through an edit history
     ("hash", None, False),
     ("meta", False, False),
     (None, True, False),
@@ -980,8 +1183,13 @@ def run(ctx):
     total = ctx.n(quick=2000, thorough=70000)
     per = max(1, total // 4)
     for mode, renames, storage in ARMS:
-        n = max(1, per // 3) if storage else per
-        if not ctx.run_given(cases(mode=mode, renames=renames, storage=storage), run_case, n):
+        n = per
+        if storage == "sqlite":
+            n = max(1, ctx.n(quick=60, thorough=1500))
+        elif storage:
+            n = max(1, per // 3)
+        strat = cases(mode=mode, renames=renames, storage=storage is True, sqlite=storage == "sqlite")
+        if not ctx.run_given(strat, run_case, n):
             return
 
 
